@@ -23,7 +23,8 @@ Inductive sop :=
 | SDump (i : N)
 | SGet (k : nat)
 | SLoop (me to from : N)
-| SNewNat (i : N) (c : ncfg).
+| SNewNat (i : N) (c : ncfg)
+| SDropFrom (i : N).       (* lose everything in flight that node i sent (i = 0: everything) *)
 
 Record sys := {
   s_nodes : list (N * node);
@@ -163,6 +164,12 @@ Definition sstep (salts : list (N * N)) (s : sys) (o : sop) : sys * sout :=
   | SNewNat i c =>
       ({| s_nodes := aset (s_nodes s) i (node_new c (s_now s)); s_now := s_now s; s_sent := s_sent s; s_queue := s_queue s;
           s_writes := s_writes s; s_nat := aset (s_nat s) i [] |}, SONone)
+  | SDropFrom i =>
+      ({| s_nodes := s_nodes s; s_now := s_now s; s_sent := s_sent s;
+          s_queue := filter (fun k => match nth_error (s_sent s) k with
+                                      | Some (src, _, _) => negb ((i =? 0) || (src =? i))
+                                      | None => false end) (s_queue s);
+          s_writes := s_writes s; s_nat := s_nat s |}, SONone)
   end.
 
 (* the salts oracle is given per operation *)
